@@ -1254,3 +1254,460 @@ Proof.
     + destruct (WA Hh Hf) as (A & _). destruct A as [A|[A|[A|A]]]; discriminate.
   - contradiction.
 Qed.
+
+(** * Faults inside subjectiveTail *)
+
+(** ** no fault: the unfaulted run *)
+Lemma down_fault_none fuel g w st cur t : down_fault fuel FNone g w st cur t = None.
+Proof.
+  revert g w st cur. induction fuel as [|fu IH]; intros; cbn [down_fault]; [reflexivity|].
+  destruct (t <=? cur); [reflexivity|]. cbn. apply IH.
+Qed.
+
+Lemma move_fault_none g w st old x : move_fault FNone g w st old x = None.
+Proof.
+  unfold move_fault. destruct old as [t|]; [|reflexivity].
+  destruct (t <? x).
+  - cbn. destruct (_ <? x); [|reflexivity]. destruct (st_delete_range _ _ _); reflexivity.
+  - destruct (x <? t); [apply down_fault_none|reflexivity].
+Qed.
+
+Lemma fetch_fault_none times st old x req : fetch_fault FNone times st old x req = None.
+Proof. unfold fetch_fault. cbn. destruct (in_chain times x); [|reflexivity]. rewrite move_fault_none. reflexivity. Qed.
+
+Lemma subjective_tail_fault_none p times st : subjective_tail_fault FNone p times st = None.
+Proof.
+  unfold subjective_tail_fault. destruct (p_hash p).
+  - match goal with |- context [tail_height ?a ?b ?c ?d ?e ?f] => destruct (tail_height a b c d e f) end; try reflexivity.
+    destruct (_ && (_ =? 0)); [reflexivity|]. destruct (_ && st_has _ _).
+    + rewrite move_fault_none. reflexivity.
+    + apply fetch_fault_none.
+  - reflexivity.
+  - destruct (match _ with Some t => _ | None => false end); [reflexivity|].
+    destruct (_ && st_has _ _); [rewrite move_fault_none; reflexivity|apply fetch_fault_none].
+Qed.
+
+Theorem start_step_f_none p times now st : start_step_f FNone p times now st = start_step p times now st.
+Proof.
+  unfold start_step_f. destruct (start_call p times now st) as [|[i st1]]; [reflexivity|].
+  rewrite subjective_tail_fault_none. reflexivity.
+Qed.
+
+(** ** a fault that fires surfaces as an error of Start *)
+Lemma failed_out req r o : failed req r = Some o -> o_out o = OErr /\ o_req o = req.
+Proof. destruct r; cbn; intros H; inversion H; subst; auto. Qed.
+
+Lemma fetch_fault_out f times st old x req o : fetch_fault f times st old x req = Some o -> o_out o = OErr /\ o_req o = req.
+Proof.
+  unfold fetch_fault. destruct (fget f 0); [intros H; inversion H; subst; auto|].
+  destruct (in_chain times x); [|discriminate].
+  destruct (fwrite f 0); [intros H; inversion H; subst; auto|]. apply failed_out.
+Qed.
+
+Lemma subjective_tail_fault_out f p times st o :
+  subjective_tail_fault f p times st = Some o -> o_out o = OErr.
+Proof.
+  unfold subjective_tail_fault. destruct (p_hash p).
+  - match goal with |- context [tail_height ?a ?b ?c ?d ?e ?f] => destruct (tail_height a b c d e f) end; try discriminate.
+    destruct (_ && (_ =? 0)); [discriminate|]. destruct (_ && st_has _ _); intros H.
+    + apply failed_out in H. tauto.
+    + apply fetch_fault_out in H. tauto.
+  - discriminate.
+  - destruct (match _ with Some t => _ | None => false end); [discriminate|].
+    destruct (_ && st_has _ _); intros H; [apply failed_out in H|apply fetch_fault_out in H]; tauto.
+Qed.
+
+Theorem start_step_f_out f p times now st :
+  start_step_f f p times now st = start_step p times now st \/ o_out (start_step_f f p times now st) = OErr.
+Proof.
+  unfold start_step_f. destruct (start_call p times now st) as [|[i st1]]; [left; reflexivity|].
+  destruct (subjective_tail_fault f p times st1) eqn:E; [right|left; reflexivity].
+  eapply subjective_tail_fault_out; eauto.
+Qed.
+
+(** ** the store a failed run leaves behind *)
+Definition lwf (st : store) (n : N) : Prop :=
+  ((s_tail st = 0 /\ s_head st = 0) \/ (1 <= s_tail st <= s_head st /\ s_head st <= n)) /\
+  Forall (fun e => 1 <= e <= n /\ (s_tail st = 0 \/ e < s_tail st \/ s_head st < e)) (s_extra st).
+
+Lemma wf_lwf st n : wf st n -> lwf st n.
+Proof. intros [He Hc]. split; [exact Hc|]. rewrite He. constructor. Qed.
+
+Lemma mem_in h l : mem h l = true -> In h l.
+Proof. unfold mem. rewrite existsb_exists. intros [x [Hin He]]. apply N.eqb_eq in He. subst. exact Hin. Qed.
+
+Lemma absorb_up_range n ex : Forall (fun e => e <= n) ex ->
+  forall fuel hd, hd <= n -> hd <= absorb_up fuel hd ex <= n.
+Proof.
+  intros F. induction fuel as [|fu IH]; intros hd Hh; cbn [absorb_up]; [lia|].
+  destruct (mem (hd + 1) ex) eqn:M; [|lia].
+  apply mem_in in M. rewrite Forall_forall in F. specialize (F _ M). specialize (IH (hd + 1) F). lia.
+Qed.
+
+Lemma absorb_down_range ex : forall fuel tl, 1 <= tl -> 1 <= absorb_down fuel tl ex <= tl.
+Proof.
+  induction fuel as [|fu IH]; intros tl Ht; cbn [absorb_down]; [lia|].
+  destruct ((1 <? tl) && mem (tl - 1) ex) eqn:M; [|lia].
+  assert (1 < tl) by lia. specialize (IH (tl - 1) ltac:(lia)). lia.
+Qed.
+
+Lemma st_norm_lwf tl hd ex n : 1 <= tl <= hd -> hd <= n -> Forall (fun e => 1 <= e <= n) ex ->
+  lwf (st_norm tl hd ex) n.
+Proof.
+  intros Ht Hh F. unfold st_norm.
+  assert (Fn : Forall (fun e => e <= n) ex) by (eapply Forall_impl; [|exact F]; cbn; intros; lia).
+  pose proof (absorb_up_range n ex Fn (length ex) hd Hh) as U.
+  pose proof (absorb_down_range ex (length ex) tl ltac:(lia)) as D.
+  split; cbn [s_tail s_head s_extra].
+  - right. lia.
+  - apply Forall_forall. intros e He. apply filter_In in He. destruct He as [Hin Hf].
+    rewrite Forall_forall in F. specialize (F e Hin). split; [lia|]. lia.
+Qed.
+
+Lemma insert_sorted_in h l e : In e (insert_sorted h l) -> e = h \/ In e l.
+Proof.
+  induction l as [|x r IH]; cbn.
+  - intros [->|[]]; auto.
+  - destruct (h <? x); [cbn; intros [->|H]; auto|].
+    destruct (h =? x); [auto|]. cbn. intros [->|H]; auto. destruct (IH H); auto.
+Qed.
+
+Lemma lwf_extras st n : lwf st n -> Forall (fun e => 1 <= e <= n) (s_extra st).
+Proof. intros [_ F]. eapply Forall_impl; [|exact F]. cbn. tauto. Qed.
+
+Lemma st_append_lwf st n h : lwf st n -> 1 <= h <= n -> lwf (st_append st h) n.
+Proof.
+  intros L Hh. pose proof (lwf_extras _ _ L) as Fe. unfold st_append.
+  destruct (st_empty st) eqn:E.
+  - apply st_norm_lwf; auto; lia.
+  - destruct (st_has st h); [exact L|].
+    destruct L as [[[Ht _]|Hc] _]; [unfold st_empty in E; lia|].
+    apply st_norm_lwf; try lia.
+    apply Forall_forall. intros e He. apply insert_sorted_in in He. destruct He as [->|He]; [lia|].
+    rewrite Forall_forall in Fe. auto.
+Qed.
+
+Lemma st_append_range_gen n : forall k lo st, lwf st n -> 1 <= lo -> lo + N.of_nat k <= n + 1 ->
+  lwf (fold_left st_append (hseq lo k) st) n.
+Proof.
+  induction k as [|k IH]; intros lo st L Hlo Hhi; cbn [hseq fold_left]; [exact L|].
+  apply IH; try lia. apply st_append_lwf; auto. lia.
+Qed.
+
+Lemma st_append_range_lwf st n lo hi : lwf st n -> 1 <= lo -> hi <= n -> lwf (st_append_range st lo hi) n.
+Proof.
+  intros L Hlo Hhi. unfold st_append_range.
+  destruct (N.le_gt_cases lo (hi + 1)).
+  - apply st_append_range_gen; auto. lia.
+  - replace (N.to_nat (hi + 1 - lo)) with O by lia. exact L.
+Qed.
+
+Lemma down_fault_lwf n f t : t <= n -> forall fuel g w st cur st',
+  lwf st n -> down_fault fuel f g w st cur t = Some st' -> lwf st' n.
+Proof.
+  intros Ht. induction fuel as [|fu IH]; intros g w st cur st' L; cbn [down_fault]; [discriminate|].
+  destruct (t <=? cur); [discriminate|].
+  destruct (fget f g || fwrite f w); [intros H; inversion H; subst; exact L|].
+  apply IH. apply st_append_range_lwf; auto; lia.
+Qed.
+
+(** the restart's wipe of a chain with one detached header above it *)
+Lemma wipe_detached t h x : 1 <= t <= h -> h + 1 < x -> h + 1 < two64 ->
+  st_delete_range (Store t h [x]) t (wrap64 (h + 1)) = Some (Store 0 0 [x]).
+Proof.
+  intros Ht Hx H64. unfold st_delete_range, st_empty, st_has, st_empty, mem. cbn.
+  rewrite (wrap64_small (h + 1)) by lia.
+  destruct (N.eqb_spec t 0); [lia|]. cbn.
+  destruct (N.leb_spec (h + 1) t); [lia|]. destruct (N.ltb_spec h t); [lia|]. cbn.
+  rewrite !N.eqb_refl. cbn.
+  destruct (N.leb_spec t (h + 1)); [|lia]. destruct (N.leb_spec (h + 1) h); [lia|]. cbn.
+  destruct (N.eqb_spec (h + 1) x); [lia|]. reflexivity.
+Qed.
+
+Lemma move_fault_lwf f g w t h x n st' : 1 <= t <= h -> h <= n -> 1 <= x <= n -> n + 2 < two64 ->
+  move_fault f g w (st_append (Store t h []) x) (Some t) x = Some st' -> lwf st' n.
+Proof.
+  intros Ht Hh Hx H64.
+  assert (L0 : lwf (Store t h []) n) by (apply wf_lwf; split; cbn; [reflexivity|right; lia]).
+  pose proof (st_append_lwf _ n x L0 Hx) as L1.
+  unfold move_fault. destruct (N.ltb_spec t x) as [Htx|Htx].
+  - destruct (fwrite f w); [intros H; inversion H; subst; exact L1|].
+    revert L1. rewrite st_append_cases by lia.
+    destruct ((t <=? x) && (x <=? h)) eqn:C; cbn [s_head].
+    + rewrite (wrap64_small (h + 1)) by lia. destruct (N.ltb_spec (h + 1) x); [lia|discriminate].
+    + destruct (N.eqb_spec x (h + 1)).
+      * cbn [s_head]. rewrite (wrap64_small (h + 1 + 1)) by lia. destruct (N.ltb_spec (h + 1 + 1) x); [lia|discriminate].
+      * destruct (N.eqb_spec x (t - 1)); [lia|]. cbn [s_head].
+        rewrite (wrap64_small (h + 1)) by lia. destruct (N.ltb_spec (h + 1) x); [|discriminate].
+        rewrite <- (wrap64_small (h + 1)) at 1 by lia.
+        rewrite wipe_detached by lia. intros _.
+        destruct (fwrite f (S w)); [|discriminate]. intros HH; inversion HH; subst.
+        split; cbn; [left; auto|]. constructor; [|constructor]. lia.
+  - destruct (N.ltb_spec x t); [|discriminate].
+    apply down_fault_lwf; auto. lia.
+Qed.
+
+Lemma target_fault f g w st n x req o :
+  wf st n -> 1 <= x <= n -> n + 2 < two64 ->
+  failed req (move_fault f g w (st_append st x) (if st_empty st then None else Some (s_tail st)) x) = Some o ->
+  lwf (o_store o) n.
+Proof.
+  intros Hwf Hx H64. destruct (st_empty st) eqn:E.
+  - cbn. discriminate.
+  - destruct (wf_nonempty st n Hwf E) as (Hst & Ht & Hh).
+    destruct (move_fault _ _ _ _ _ _) eqn:M; cbn; [|discriminate].
+    intros H; inversion H; subst. cbn. rewrite Hst in M.
+    eapply move_fault_lwf; eauto.
+Qed.
+
+Lemma fetch_fault_lwf f times st x req o :
+  wf st (net_head times) -> net_head times + 2 < two64 ->
+  fetch_fault f times st (if st_empty st then None else Some (s_tail st)) x req = Some o ->
+  lwf (o_store o) (net_head times).
+Proof.
+  intros Hwf H64. unfold fetch_fault.
+  destruct (fget f 0); [intros H; inversion H; subst; cbn; apply wf_lwf; exact Hwf|].
+  destruct (in_chain times x) eqn:Ic; [|discriminate]. apply in_chain_spec in Ic.
+  destruct (fwrite f 0); [intros H; inversion H; subst; cbn; apply wf_lwf; exact Hwf|].
+  apply target_fault; auto.
+Qed.
+
+Lemma found_fault_lwf f st n x o :
+  wf st n -> n + 2 < two64 -> st_has st x = true ->
+  failed [] (move_fault f 0 0 st (if st_empty st then None else Some (s_tail st)) x) = Some o ->
+  lwf (o_store o) n.
+Proof.
+  intros Hwf H64 Hhas.
+  assert (Hx : 1 <= x <= n).
+  { unfold st_has in Hhas. destruct Hwf as [He Hc]. rewrite He in Hhas. cbn in Hhas.
+    rewrite Bool.orb_false_r in Hhas. unfold st_empty in Hhas. lia. }
+  rewrite <- (st_append_has st n x Hwf Hhas) at 1. apply target_fault; auto.
+Qed.
+
+Lemma subjective_tail_fault_lwf f p times st o :
+  wf st (net_head times) -> net_head times + 2 < two64 ->
+  subjective_tail_fault f p times st = Some o -> lwf (o_store o) (net_head times).
+Proof.
+  intros Hwf H64. unfold subjective_tail_fault. destruct (p_hash p) as [| |k].
+  - match goal with |- context [tail_height ?a ?b ?c ?d ?e ?f] => destruct (tail_height a b c d e f) as [| | |x] end; try discriminate.
+    destruct (_ && (_ =? 0)); [discriminate|]. destruct ((x <=? st_height st) && st_has st x) eqn:C.
+    + apply found_fault_lwf; auto. lia.
+    + apply fetch_fault_lwf; auto.
+  - discriminate.
+  - destruct (match _ with Some t => _ | None => false end); [discriminate|].
+    destruct (in_chain times k && st_has st k) eqn:C.
+    + apply found_fault_lwf; auto. lia.
+    + apply fetch_fault_lwf; auto.
+Qed.
+
+Theorem start_step_f_store f p times now st :
+  let n := net_head times in
+  wf st n -> n + 2 < two64 -> lwf (o_store (start_step_f f p times now st)) n.
+Proof.
+  intros n Hwf H64.
+  assert (B : lwf (o_store (start_step p times now st)) n).
+  { pose proof (start_run_store p times now st Hwf H64) as S. unfold start_step.
+    destruct (start_run p times now st) as [o w]. apply wf_lwf. apply S. }
+  unfold start_step_f. destruct (start_call p times now st) as [|[i st1]] eqn:SC; [exact B|].
+  destruct (start_call_wf p times now st i st1 Hwf H64 SC) as (Hwf1 & _).
+  destruct (subjective_tail_fault f p times st1) eqn:E; [|exact B].
+  eapply subjective_tail_fault_lwf; eauto.
+Qed.
+
+(** ** witnesses: what a failing environment leaves behind, and the retry *)
+Definition wf_params (from : N) : params := Params (337 * w_hour)%Z from HNone w_big w_sec 1.
+Definition wf_times : list Z := mk_times 0%Z (repeat w_sec 99).
+Definition wf_now : Z := (99 * w_sec + 1)%Z.
+
+(** the second range request of the downward sync fails: an island below the tail *)
+Lemma wfault_island :
+  start_step_f (FGet 2) (wf_params 24) wf_times wf_now (Store 90 95 []) =
+    Obs OErr [24] (Store 90 95 (hseq 24 65)) /\
+  start_step (wf_params 24) wf_times wf_now (Store 90 95 (hseq 24 65)) = Obs OOk [] (Store 24 100 []).
+Proof. split; vm_compute; reflexivity. Qed.
+
+(** DeleteRange of the restart fails: the forced-appended tail stays detached above the head *)
+Lemma wfault_detached :
+  start_step_f (FWrite 1) (wf_params 80) wf_times wf_now (Store 1 50 []) = Obs OErr [80] (Store 1 50 [80]) /\
+  start_step (wf_params 80) wf_times wf_now (Store 1 50 [80]) = Obs OOk [80] (Store 80 100 []).
+Proof. split; vm_compute; reflexivity. Qed.
+
+(** the Append after the restart's wipe fails: the store is empty *)
+Lemma wfault_emptied :
+  start_step_f (FWrite 2) (wf_params 80) wf_times wf_now (Store 1 50 []) = Obs OErr [80] (Store 0 0 [80]) /\
+  start_step (wf_params 80) wf_times wf_now (Store 0 0 [80]) = Obs OOk [80] (Store 80 100 []).
+Proof. split; vm_compute; reflexivity. Qed.
+
+Theorem fault_refutes_chain :
+  exists f p times now st,
+    wf st (net_head times) /\ net_head times + 2 < two64 /\ s_tail st <> 0 /\
+    o_out (start_step_f f p times now st) = OErr /\
+    ~ wf (o_store (start_step_f f p times now st)) (net_head times) /\
+    s_tail (o_store (start_step_f f p times now st)) = 0.
+Proof.
+  exists (FWrite 2), (wf_params 80), wf_times, wf_now, (Store 1 50 []).
+  destruct wfault_emptied as [E _]. rewrite E. cbn [o_out o_store s_tail s_extra].
+  split; [split; cbn; [reflexivity|right; lia]|].
+  split; [vm_compute; reflexivity|]. split; [discriminate|]. split; [reflexivity|].
+  split; [|reflexivity]. intros [He _]. discriminate.
+Qed.
+
+(** * The gossip verifier closure *)
+Lemma gossip_no_panic p times st : o_out (gossip_step p times st) <> OPanic.
+Proof.
+  unfold gossip_step. destruct (_ && _); [|cbn; discriminate].
+  pose proof (subjective_tail_no_panic p times (st_sync_up st (net_head times))) as NP.
+  destruct (subjective_tail p times (st_sync_up st (net_head times))) as [o w]. cbn [fst] in NP.
+  destruct (o_out o) eqn:E; cbn; try discriminate. contradiction.
+Qed.
+
+Lemma gossip_accepts p times st :
+  st_empty st = false -> s_head st < net_head times ->
+  (tm0 times (s_head st) <= tm0 times (net_head times))%Z ->
+  o_out (gossip_step p times st) = OOk.
+Proof.
+  intros E Hh Ht. pose proof (gossip_no_panic p times st) as NP. revert NP. unfold gossip_step.
+  replace (negb (st_empty st) && (s_head st <? net_head times) && (tm0 times (s_head st) <=? tm0 times (net_head times))%Z)
+    with true by (rewrite E; cbn; lia).
+  destruct (subjective_tail p times (st_sync_up st (net_head times))) as [o w].
+  destruct (o_out o) eqn:Eo; cbn; try reflexivity. rewrite Eo. intros NP. contradiction.
+Qed.
+
+Theorem gossip_store p times st :
+  let n := net_head times in
+  wf st n -> n + 2 < two64 -> params_valid p = true ->
+  wf (o_store (gossip_step p times st)) n /\ (s_tail st <> 0 -> s_tail (o_store (gossip_step p times st)) <> 0).
+Proof.
+  intros n Hwf H64 Hv. unfold gossip_step. fold n.
+  destruct (negb (st_empty st) && (s_head st <? n) && (tm0 times (s_head st) <=? tm0 times n)%Z) eqn:C; [|cbn; auto].
+  assert (Hne : s_tail st <> 0) by (unfold st_empty in C; lia).
+  destruct (wf_sync_up st n n Hwf Hne ltac:(lia)) as [W1 T1].
+  pose proof (subjective_tail_spec p times (st_sync_up st n) W1 H64 Hv) as R. fold n in R.
+  destruct R as [|req w' Hw'|req st' A1 A2 A3 A4]; cbn; (split; [assumption|]); intros _; try rewrite T1; assumption.
+Qed.
+
+(** * The range requests of the downward sync *)
+Lemma down_reqs_bounds f t : forall fuel g w cur r, In r (down_reqs fuel f g w cur t) ->
+  match r with
+  | GHash _ => False
+  | GRange a b => cur <= a /\ a + 1 < b /\ b <= a + chunk_size + 1 /\ b <= t + 1
+  end.
+Proof.
+  induction fuel as [|fu IH]; intros g w cur r; cbn [down_reqs]; [intros []|].
+  destruct (N.leb_spec t cur); [intros []|].
+  cbn [In]. intros [<-|Hin].
+  - unfold chunk_size. lia.
+  - destruct (fget f g || fwrite f w); [destruct Hin|].
+    specialize (IH _ _ _ _ Hin). destruct r; [exact IH|]. unfold chunk_size in *. lia.
+Qed.
+
+(** ** a failing getter loses no header *)
+Lemma absorb_up_ge ex : forall fuel hd, hd <= absorb_up fuel hd ex.
+Proof. induction fuel as [|fu IH]; intros hd; cbn [absorb_up]; [lia|]. destruct (mem (hd + 1) ex); [|lia]. specialize (IH (hd + 1)). lia. Qed.
+
+Lemma mem_filter (f : N -> bool) h l : mem h l = true -> f h = true -> mem h (filter f l) = true.
+Proof.
+  unfold mem. rewrite !existsb_exists. intros [x [Hin He]] Hf. apply N.eqb_eq in He. subst x.
+  exists h. split; [apply filter_In; auto|apply N.eqb_refl].
+Qed.
+
+Lemma st_norm_has tl hd ex h : 1 <= tl <= hd ->
+  ((tl <=? h) && (h <=? hd)) || mem h ex = true -> st_has (st_norm tl hd ex) h = true.
+Proof.
+  intros Ht H. unfold st_norm, st_has, st_empty. cbn [s_tail s_head s_extra].
+  pose proof (absorb_up_ge ex (length ex) hd) as U.
+  pose proof (absorb_down_range ex (length ex) tl ltac:(lia)) as D.
+  set (tl' := absorb_down (length ex) tl ex) in *. set (hd' := absorb_up (length ex) hd ex) in *.
+  destruct (N.eqb_spec tl' 0); [lia|]. cbn [negb andb].
+  destruct ((tl' <=? h) && (h <=? hd')) eqn:C; [reflexivity|]. cbn [orb].
+  assert (M : mem h ex = true) by lia.
+  apply mem_filter; [exact M|]. lia.
+Qed.
+
+Lemma mem_insert_sorted x h l : mem h l = true -> mem h (insert_sorted x l) = true.
+Proof.
+  induction l as [|y r IH]; cbn; [discriminate|].
+  intros H. destruct (x <? y); [cbn; rewrite H; apply Bool.orb_true_r|].
+  destruct (x =? y); [exact H|]. cbn. destruct (h =? y); [reflexivity|]. cbn in *. auto.
+Qed.
+
+Lemma st_append_keeps st n x h : lwf st n -> 1 <= x -> st_has st h = true -> st_has (st_append st x) h = true.
+Proof.
+  intros L Hx H. unfold st_append. destruct (st_empty st) eqn:E.
+  - apply st_norm_has; [lia|]. unfold st_has in H. rewrite E in H. cbn in H. rewrite H. apply Bool.orb_true_r.
+  - destruct (st_has st x); [exact H|].
+    destruct L as [[[Ht _]|Hc] _]; [unfold st_empty in E; lia|].
+    apply st_norm_has; [lia|]. unfold st_has in H. rewrite E in H. cbn [negb andb] in H.
+    destruct ((s_tail st <=? h) && (h <=? s_head st)) eqn:C; [reflexivity|].
+    cbn [orb] in *. apply mem_insert_sorted. lia.
+Qed.
+
+Lemma fold_append_keeps n h : forall k lo st, lwf st n -> 1 <= lo -> lo + N.of_nat k <= n + 1 ->
+  st_has st h = true -> st_has (fold_left st_append (hseq lo k) st) h = true.
+Proof.
+  induction k as [|k IH]; intros lo st L Hlo Hhi H; cbn [hseq fold_left]; [exact H|].
+  apply IH; try lia.
+  - apply st_append_lwf; auto. lia.
+  - eapply st_append_keeps; eauto.
+Qed.
+
+Lemma st_append_range_keeps st n lo hi h : lwf st n -> 1 <= lo -> hi <= n ->
+  st_has st h = true -> st_has (st_append_range st lo hi) h = true.
+Proof.
+  intros L Hlo Hhi H. unfold st_append_range.
+  destruct (N.le_gt_cases lo (hi + 1)).
+  - eapply fold_append_keeps; eauto. lia.
+  - replace (N.to_nat (hi + 1 - lo)) with O by lia. exact H.
+Qed.
+
+Lemma down_fault_keeps n f t h : t <= n -> forall fuel g w st cur st',
+  lwf st n -> down_fault fuel f g w st cur t = Some st' -> st_has st h = true -> st_has st' h = true.
+Proof.
+  intros Ht. induction fuel as [|fu IH]; intros g w st cur st' L; cbn [down_fault]; [discriminate|].
+  destruct (t <=? cur); [discriminate|].
+  destruct (fget f g || fwrite f w); [intros HH; inversion HH; subst; auto|].
+  intros HH Hh. eapply IH; [|exact HH|].
+  - apply st_append_range_lwf; auto; lia.
+  - eapply st_append_range_keeps; eauto; lia.
+Qed.
+
+Lemma move_fault_get_keeps k g w st n t x st' h : lwf st n -> t <= n ->
+  move_fault (FGet k) g w st (Some t) x = Some st' -> st_has st h = true -> st_has st' h = true.
+Proof.
+  intros L Ht. unfold move_fault. cbn [fwrite].
+  destruct (t <? x).
+  - destruct (_ <? x); [|discriminate]. destruct (st_delete_range _ _ _); discriminate.
+  - destruct (x <? t); [|discriminate]. intros HH. eapply down_fault_keeps; eauto.
+Qed.
+
+Theorem getter_fault_keeps k p times st o h :
+  wf st (net_head times) ->
+  subjective_tail_fault (FGet k) p times st = Some o -> st_has st h = true -> st_has (o_store o) h = true.
+Proof.
+  intros Hwf.
+  assert (L : lwf st (net_head times)) by (apply wf_lwf; exact Hwf).
+  assert (Told : forall t, (if st_empty st then None else Some (s_tail st)) = Some t -> t <= net_head times).
+  { intros t. destruct (st_empty st) eqn:E; [discriminate|]. intros HH; inversion HH; subst.
+    destruct (wf_nonempty st _ Hwf E) as (_ & ? & ?). lia. }
+  assert (Found : forall x, failed [] (move_fault (FGet k) 0 0 st (if st_empty st then None else Some (s_tail st)) x) = Some o ->
+                  st_has st h = true -> st_has (o_store o) h = true).
+  { intros x. destruct (if st_empty st then None else Some (s_tail st)) as [t|] eqn:Eo; [|cbn; discriminate].
+    destruct (move_fault _ _ _ _ _ _) eqn:M; cbn; [|discriminate]. intros HH; inversion HH; subst. cbn.
+    eapply move_fault_get_keeps; eauto. }
+  assert (Fetch : forall x req, fetch_fault (FGet k) times st (if st_empty st then None else Some (s_tail st)) x req = Some o ->
+                  st_has st h = true -> st_has (o_store o) h = true).
+  { intros x req. unfold fetch_fault. destruct (fget (FGet k) 0); [intros HH; inversion HH; subst; auto|].
+    destruct (in_chain times x) eqn:Ic; [|discriminate]. apply in_chain_spec in Ic. cbn [fwrite].
+    destruct (if st_empty st then None else Some (s_tail st)) as [t|] eqn:Eo; [|cbn; discriminate].
+    destruct (move_fault _ _ _ _ _ _) eqn:M; cbn; [|discriminate]. intros HH; inversion HH; subst. cbn. intros Hh.
+    eapply move_fault_get_keeps; [| |exact M|].
+    - apply st_append_lwf; eauto.
+    - auto.
+    - eapply st_append_keeps; eauto. lia. }
+  unfold subjective_tail_fault. destruct (p_hash p) as [| |kk].
+  - match goal with |- context [tail_height ?a ?b ?c ?d ?e ?f] => destruct (tail_height a b c d e f) as [| | |x] end; try discriminate.
+    destruct (_ && (_ =? 0)); [discriminate|]. destruct ((x <=? st_height st) && st_has st x); [apply Found|apply Fetch].
+  - discriminate.
+  - destruct (match _ with Some t => _ | None => false end); [discriminate|].
+    destruct (in_chain times kk && st_has st kk); [apply Found|apply Fetch].
+Qed.
